@@ -280,16 +280,25 @@ def _known_variants_at_end(stmts, known):
     return known
 
 
-def _chain_from(blocks, start, limit=5):
-    """Blocks reached from `start` by following unconditional jumps: [start, next, ..] (stops at the first non-goto)."""
+def _uncond(t):
+    """Target of a terminator with one normal successor and no effect on variants: goto, or the drop of a local (scope end)."""
+    if t["k"] == "goto":
+        return t["t"]
+    if t["k"] == "drop" and t.get("t") is not None:
+        return t["t"]
+    return None
+
+
+def _chain_from(blocks, start, limit=9):
+    """Blocks reached from `start` by following unconditional jumps / scope-end drops: [start, next, ..]."""
     out = [start]
     seen = {start}
     while len(out) < limit:
-        t = blocks[out[-1]]["term"]
-        if t["k"] != "goto" or t["t"] in seen or blocks[t["t"]].get("cleanup"):
+        nt = _uncond(blocks[out[-1]]["term"])
+        if nt is None or nt in seen or blocks[nt].get("cleanup"):
             break
-        out.append(t["t"])
-        seen.add(t["t"])
+        out.append(nt)
+        seen.add(nt)
     return out
 
 
@@ -315,6 +324,142 @@ def _target_of(t, v):
     return t["otherwise"]
 
 
+def _residual_entry_facts(blocks, pi):
+    """What is known on entry to block pi because its only way in is the return of `FromResidual::from_residual` (the early
+    return of `?`): the destination is the failure variant."""
+    ins = []
+    for qi, Q in enumerate(blocks):
+        t = Q["term"]
+        if Q.get("cleanup"):
+            continue
+        if t["k"] == "switch":
+            if pi in {tb for _, tb in t["targets"]} | {t["otherwise"]}:
+                return {}
+        elif t.get("t") == pi:
+            ins.append(t)
+    if len(ins) != 1:
+        return {}
+    t = ins[0]
+    if t["k"] == "call" and t["callee"] == "std::ops::FromResidual::from_residual" and not t["dest"]["p"]:
+        ty = t["dest"].get("ty") or ""
+        if ty.startswith("std::result::Result"):
+            return {t["dest"]["l"]: (RESULT, "Err")}
+        if ty.startswith("std::option::Option"):
+            return {t["dest"]["l"]: (OPTION, "None")}
+    return {}
+
+
+def _test_of(blocks, bi, known):
+    """If block bi tests a local whose variant is known: (kind, feasible target, label, statements-known) else None."""
+    B = blocks[bi]
+    pat = _switch_pattern(B)
+    if pat is not None and pat[1] in VARIANTS:
+        kn = _known_variants_at_end(B["stmts"][:-1], known)
+        x, adt, names, st = pat
+        if x in kn and kn[x][0] == adt and kn[x][1] in names:
+            return ("switch", _target_of(st, names[kn[x][1]]), kn[x][1])
+        return None
+    t = B["term"]
+    if t["k"] == "call" and t["callee"] == "std::ops::Try::branch" and t.get("t") is not None and t["args"] and \
+            t["args"][0].get("k") in ("copy", "move") and not t["args"][0].get("p") and not t["dest"]["p"]:
+        kn = _known_variants_at_end(B["stmts"], known)
+        S = blocks[t["t"]]
+        pat = _switch_pattern(S)
+        if pat is not None and pat[0] == t["dest"]["l"] and "Continue" in pat[2] and t["args"][0]["l"] in kn:
+            variant = kn[t["args"][0]["l"]][1]
+            arm = "Continue" if variant in ("Ok", "Some") else "Break"
+            return ("try", _target_of(pat[3], pat[2][arm]), arm)
+    return None
+
+
+def _thread_region(blocks, pi, known, limit=14):
+    """The same through a small acyclic region with branches that do not concern the known value (drop-flag tests of scope
+    ends between a `return Err(..)` and the caller's `?`): every path from P's successor must reach one and the same test of a
+    known local within `limit` blocks, passing only gotos, scope-end drops and switches on plain locals; the region is copied
+    for P with the test folded."""
+    if not known:
+        return False
+    start = _uncond(blocks[pi]["term"])
+    if start is None:
+        return False
+    region = []          # blocks in discovery order
+    facts = {start: known}
+    test = None
+    work = [start]
+    while work:
+        bi = work.pop()
+        if bi in region:
+            continue
+        if blocks[bi].get("cleanup") or len(region) >= limit:
+            return False
+        kn = facts[bi]
+        tst = _test_of(blocks, bi, kn)
+        if tst is not None:
+            if test is not None and test[0] != bi:
+                return False
+            test = (bi, tst)
+            continue
+        B = blocks[bi]
+        t = B["term"]
+        out_kn = _known_variants_at_end(B["stmts"], kn)
+        if t["k"] == "drop":
+            out_kn = dict(out_kn)
+            out_kn.pop(t.get("place", {}).get("l"), None)
+        if not out_kn:
+            return False
+        if _uncond(t) is not None:
+            succs = [_uncond(t)]
+        elif t["k"] == "switch" and t["discr"].get("k") in ("copy", "move") and not t["discr"].get("p") and _switch_pattern(B) is None:
+            succs = sorted({tb for _, tb in t["targets"]} | {t["otherwise"]})
+        else:
+            return False
+        region.append(bi)
+        for sx in succs:
+            if sx in facts and facts[sx] != out_kn and sx not in (test[0] if test else None,):
+                # two ways in with different facts: keep only what both agree on
+                facts[sx] = {k: v for k, v in facts[sx].items() if out_kn.get(k) == v}
+            else:
+                facts.setdefault(sx, out_kn)
+            if sx not in region:
+                work.append(sx)
+    if test is None or not region or not any(blocks[b]["term"]["k"] == "switch" for b in region):
+        return False
+    # the region must be acyclic and closed: every successor is in the region or is the test
+    tb, (kind, dest, label) = test
+    for bi in region:
+        t = blocks[bi]["term"]
+        succs = [_uncond(t)] if _uncond(t) is not None else sorted({x for _, x in t["targets"]} | {t["otherwise"]})
+        if any(sx != tb and sx not in region for sx in succs):
+            return False
+    first_new = len(blocks)
+    newid = {bi: first_new + k for k, bi in enumerate(region)}
+    newid[tb] = first_new + len(region)
+    for bi in region:
+        src = blocks[bi]
+        t2 = copy.deepcopy(src["term"])
+        if t2["k"] == "switch":
+            t2["targets"] = [[v, newid[x]] for v, x in t2["targets"]]
+            t2["otherwise"] = newid[t2["otherwise"]]
+        else:
+            t2["t"] = newid[t2["t"]]
+        blocks.append({"stmts": copy.deepcopy(src["stmts"]), "term": t2, "cleanup": False, "synthetic": True})
+    src = blocks[tb]
+    if kind == "switch":
+        blocks.append({"stmts": copy.deepcopy(src["stmts"]), "term": {"k": "goto", "t": dest, "span": src["term"].get("span"), "threaded_variant": label},
+                       "cleanup": False, "synthetic": True})
+    else:
+        S = blocks[src["term"]["t"]]
+        t2 = copy.deepcopy(src["term"])
+        t2["t"] = first_new + len(region) + 1
+        blocks.append({"stmts": copy.deepcopy(src["stmts"]), "term": t2, "cleanup": False, "synthetic": True, "threaded_try": True})
+        blocks.append({"stmts": copy.deepcopy(S["stmts"]), "term": {"k": "goto", "t": dest, "span": S["term"].get("span"), "threaded_variant": label},
+                       "cleanup": False, "synthetic": True})
+    P = blocks[pi]
+    P["term"] = dict(P["term"])
+    P["term"]["t"] = newid[start] if start != tb else newid[tb]
+    return True
+
+
 def thread_known_variants(body):
     """Tail duplication + folding.  From a block P, follow unconditional jumps; if they lead to
         S: ..; d = discriminant(x); switchInt(d)                              (a case analysis on x), or to
@@ -331,10 +476,10 @@ def thread_known_variants(body):
         rounds += 1
         for pi in range(len(blocks)):
             P = blocks[pi]
-            if P["term"]["k"] != "goto" or P.get("cleanup"):
+            if _uncond(P["term"]) is None or P.get("cleanup"):
                 continue
-            chain = _chain_from(blocks, P["term"]["t"])
-            known = _known_variants_at_end(P["stmts"], {})
+            chain = _chain_from(blocks, _uncond(P["term"]))
+            known = _known_variants_at_end(P["stmts"], _residual_entry_facts(blocks, pi))
             if not known:
                 continue
             hit = None
@@ -359,9 +504,14 @@ def thread_known_variants(body):
                         hit = ("try", ci, _target_of(pat[3], pat[2][arm]), arm)
                     break
                 known = _known_variants_at_end(B["stmts"], known)
-                if B["term"]["k"] != "goto":
+                if _uncond(B["term"]) is None:
                     break
+                if B["term"]["k"] == "drop" and B["term"].get("place", {}).get("l") in known:
+                    known.pop(B["term"]["place"]["l"], None)
             if hit is None:
+                if _thread_region(blocks, pi, known):
+                    n += 1
+                    changed = True
                 continue
             kind, ci, dest, label = hit
             # copy chain[0..ci] for P
@@ -370,8 +520,9 @@ def thread_known_variants(body):
                 src = blocks[chain[j]]
                 last = j == ci
                 if not last:
-                    blocks.append({"stmts": copy.deepcopy(src["stmts"]), "term": {"k": "goto", "t": first_new + j + 1, "span": src["term"].get("span")},
-                                   "cleanup": False, "synthetic": True})
+                    t2 = copy.deepcopy(src["term"]) if src["term"]["k"] == "drop" else {"k": "goto", "span": src["term"].get("span")}
+                    t2["t"] = first_new + j + 1
+                    blocks.append({"stmts": copy.deepcopy(src["stmts"]), "term": t2, "cleanup": False, "synthetic": True})
                 elif kind == "switch":
                     blocks.append({"stmts": copy.deepcopy(src["stmts"]), "term": {"k": "goto", "t": dest, "span": src["term"].get("span"), "threaded_variant": label},
                                    "cleanup": False, "synthetic": True})
@@ -393,6 +544,8 @@ _ACTIVE = dict(COMBINATORS)
 
 
 def normalise_combinators(bodies, adts=None, cli=False):
+    from . import inline as _inline
+    _inline._BODIES = bodies
     _ACTIVE.clear()
     _ACTIVE.update(COMBINATORS)
     if cli:
